@@ -419,6 +419,16 @@ Section Certs.
   Qed.
 End Certs.
 
+(* what the certificate layer must provide (proved per signature scheme) *)
+Definition tc_ok (c : cfg) : Prop := forall c' v l,
+  c_scheme c' = c_scheme c -> c_replicas c' = c_replicas c ->
+  Forall (fun t => view_sig_ok c t = true /\ t_view t = v) l ->
+  NoDup (map t_id l) -> 2 <= length l -> qsize c <= length l ->
+  exists t, create_tc_of c v l = Ok t /\ tc_view t = v /\ verify_tc c' t = Ok tt.
+
+Lemma tc_ok_list c k : list_kind (c_scheme c) = Some k -> tc_ok c.
+Proof. intros K c' v l. apply tc_verifies with (k := k). exact K. Qed.
+
 (* ---------- OnRemoteTimeout when the collector fires ---------- *)
 Section Fired.
   Variable c : cfg.
@@ -495,9 +505,9 @@ Section Fired.
   Proof. unfold receipt_ok. intros H. apply andb_prop in H. tauto. Qed.
 
   (* simple rule: firing yields a TC for the message's view that verifies everywhere *)
-  Lemma fired_simple k s hist t a1 l :
+  Lemma fired_simple s hist t a1 l :
     Inv c s hist -> (s_view s <= t_view t)%N ->
-    list_kind (c_scheme c) = Some k -> c_aggqc c = false -> 2 <= q ->
+    tc_ok c -> c_aggqc c = false -> 2 <= q ->
     handed (snd (step c st s (t, a1))) = Some l ->
     exists si, snd (step c st s (t, a1)) = OFired l si /\ si_agg si = None /\
       tc_view (si_tc si) = t_view t /\
@@ -505,7 +515,7 @@ Section Fired.
                   verify_tc c' (si_tc si) = Ok tt) /\
       (t_view t = s_view s -> N.succ (s_view s) <= s_view (fst (step c st s (t, a1))))%N.
   Proof.
-    intros I Hv K Ag Q2 H.
+    intros I Hv TCV Ag Q2 H.
     pose proof (proj1 (step_fires_iff c st s hist (t, a1) l I Hv) H) as [V [Hid [Lq El]]].
     simpl fst in *.
     destruct (tally_ok_tally c (t_view t) hist) as [F [ND _]].
@@ -518,14 +528,14 @@ Section Fired.
     { subst l. rewrite map_app. simpl. apply NoDup_app_snoc; auto. apply has_id_false_notin; auto. }
     assert (Ll : length l = S (length T)).
     { subst l. rewrite app_length. simpl. lia. }
-    destruct (tc_verifies c c k (t_view t) l K eq_refl eq_refl Fl NDl ltac:(lia) ltac:(lia))
+    destruct (TCV c (t_view t) l eq_refl eq_refl Fl NDl ltac:(lia) ltac:(lia))
       as [tc0 [Ec [Etv Everif]]].
     rewrite step_handed in H. simpl fst in H. rewrite V in H.
     rewrite (step_quorum s t a1 l V H). cbv zeta.
     unfold remote_timeout_rule. rewrite Ec, Ag.
     exists (mkSI tc0 None). simpl. repeat split; auto.
     - intros c' Es Er.
-      destruct (tc_verifies c c' k (t_view t) l K Es Er Fl NDl ltac:(lia) ltac:(lia))
+      destruct (TCV c' (t_view t) l Es Er Fl NDl ltac:(lia) ltac:(lia))
         as [tc1 [Ec1 [_ Ev1]]]. rewrite Ec in Ec1. inversion Ec1. subst tc1. exact Ev1.
     - intros Ev.
       assert (W : verify_sync_info c st (mkSI tc0 None) = Ok (if N.leb (tc_view tc0) 0 then 0%N else tc_view tc0)).
